@@ -9,6 +9,7 @@ import CompmechVerif.Gen.Panel.CPanel
 import CompmechVerif.Spec.Piston
 import CompmechVerif.Model.Piston
 import CompmechVerif.Core.OpSpecTactics
+import CompmechVerif.Spec.AeroMatrix
 import Mathlib.Tactic.FinCases
 import Mathlib.Data.Fintype.Basic
 import Mathlib.Tactic.Linarith
@@ -86,6 +87,68 @@ theorem byParts_eq_pistonForm_y (P : PCtx K) (dx dy : Dom) (γ : K)
 theorem pistonForm_linear (P : PCtx K) (dx dy : Dom) (flow : Fld → List (OpTerm K)) (γ s : K) (α β : Fld) :
     pistonForm { P with beta := s * P.beta } dx dy flow (s * γ) α β = s * pistonForm P dx dy flow γ α β := by
   simp only [pistonForm, pairInt]; ring
+
+
+/-! ### the whole matrix `Panel.calc_kA(finalize=True)` delivers (loop nest + skew / symmetric completion) -/
+
+open Compmech.Asm in
+/-- the regenerated aerodynamic kernels have exactly the modelled loop nest -/
+theorem loop_nest_standard :
+    Plate.fkAx.schema = LoopSchema.std 3 none ∧ Plate.fkAy.schema = LoopSchema.std 3 none ∧
+    Plate.fcA.schema = LoopSchema.std 3 none ∧ PlateW.fkAx.schema = LoopSchema.std 1 none ∧
+    PlateW.fkAy.schema = LoopSchema.std 1 none ∧ PlateW.fcA.schema = LoopSchema.std 1 none ∧
+    CPanel.fkAx.schema = LoopSchema.std 3 none ∧ CPanel.fkAy.schema = LoopSchema.std 3 none ∧
+    CPanel.fcA.schema = LoopSchema.std 3 none := by
+  decide
+
+open Compmech.Asm in
+/-- the by-parts form of the flow term is antisymmetric, that of the curvature term symmetric, when the boundary term of the
+integration by parts vanishes for every pair of `w` basis functions (w restrained on the flow edges) -/
+theorem byParts_split_x (base : PCtx K) (I : Integrals K) (hI : I.Comm)
+    (hparts : ∀ dom i k, I .x dom 1 .w i 0 .w k + I .x dom 0 .w i 1 .w k = 0) (α β : Fld) (i k j l : Nat) :
+    pistonFormByParts (ctxAt { base with gamma := 0 } I i k j l) .full .full (wDx base) 0 α β =
+      -pistonFormByParts (ctxAt { base with gamma := 0 } I k i l j) .full .full (wDx base) 0 β α ∧
+    pistonFormByParts (ctxAt { base with beta := 0 } I i k j l) .full .full (wDx base) base.gamma α β =
+      pistonFormByParts (ctxAt { base with beta := 0 } I k i l j) .full .full (wDx base) base.gamma β α := by
+  have h1 := hparts .full i k
+  have h2 := hI .x .full 1 .w k 0 .w i
+  have h3 := hI .y .full 0 .w l 0 .w j
+  have h4 := hI .x .full 0 .w k 0 .w i
+  have e1 : I .x .full 1 .w i 0 .w k = -I .x .full 0 .w i 1 .w k := by
+    rw [← add_eq_zero_iff_eq_neg]; exact h1
+  cases α <;> cases β <;>
+    simp [pistonFormByParts, pairInt, wDx, wId, ctxAt, pick, e1, h2, h3, h4] <;> ring
+
+open Compmech.Asm in
+/-- cylindrical panel, flow along x, `finalize=True`: for ANY series orders and placement, with `w` restrained on the
+upstream and downstream edges, the matrix `Panel.calc_kA` delivers holds at EVERY pair of positions the bilinear form of the
+stated pressure law `β ∬ w_A ∂w_B/∂x − γ ∬ w_A w_B` -/
+theorem kAx_matrix_cpanel (base : PCtx K) (I : Integrals K) (hI : I.Comm) (ha : base.a ≠ 0) (hb : base.b ≠ 0)
+    (hparts : ∀ dom i k, I .x dom 1 .w i 0 .w k + I .x dom 0 .w i 1 .w k = 0)
+    (m n row0 : Nat) {i k j l : Nat} (hi : i < m) (hk : k < m) (hj : j < n) (hl : l < n) (α β : Fin 3) :
+    toFun (aeroCoo 3 m n row0 (fun ro co (P : PCtx K) => CPanel.fkAx.entry ro co { P with gamma := 0 })
+        (fun ro co (P : PCtx K) => CPanel.fkAx.entry ro co { P with beta := 0 }) base I)
+        (row0 + 3 * (j * m + i) + α.val) (row0 + 3 * (l * m + k) + β.val)
+      = pistonForm (ctxAt base I i k j l) .full .full (wDx base) base.gamma (fld3 α) (fld3 β) := by
+  rw [aeroCoo_entry 3 m n row0 _ _ base I ?_ ?_ hi hk hj hl]
+  · simp only [ctxAt_gamma0, ctxAt_beta0]
+    rw [kAx_entry_cpanel (ctxAt { base with gamma := 0 } I i k j l) ha hb,
+      kAx_entry_cpanel (ctxAt { base with beta := 0 } I i k j l) ha hb]
+    have h1 := hparts .full i k
+    have e1 : I .x .full 1 .w i 0 .w k = -I .x .full 0 .w i 1 .w k := by
+      rw [← add_eq_zero_iff_eq_neg]; exact h1
+    fin_cases α <;> fin_cases β <;>
+      simp [pistonFormByParts, pistonForm, pairInt, wDx, wId, ctxAt, pick, fld3, e1] <;> ring
+  · intro ro co i k j l
+    simp only [ctxAt_gamma0]
+    rw [kAx_entry_cpanel (ctxAt { base with gamma := 0 } I i k j l) ha hb,
+      kAx_entry_cpanel (ctxAt { base with gamma := 0 } I k i l j) ha hb]
+    exact (byParts_split_x base I hI hparts (fld3 ro) (fld3 co) i k j l).1
+  · intro ro co i k j l
+    simp only [ctxAt_beta0]
+    rw [kAx_entry_cpanel (ctxAt { base with beta := 0 } I i k j l) ha hb,
+      kAx_entry_cpanel (ctxAt { base with beta := 0 } I k i l j) ha hb]
+    exact (byParts_split_x base I hI hparts (fld3 ro) (fld3 co) i k j l).2
 
 end kernels
 
